@@ -778,6 +778,16 @@ void v_init(int argc, char **argv, const char *prop)
 {
 	v_prop = prop;
 	v_t0 = v_now();
+	{ /* how wide the REAL machine's register file is (for v_pcall register poisoning) */
+		struct simcpu h;
+		cpu_host(&h);
+		int osx = (h.ecx1 & C1_OSXSAVE) != 0;
+		v_pcall_level = 0;
+		if (osx && (h.ecx1 & B(28)) && (h.xcr0_lo & 6) == 6)
+			v_pcall_level = 1;
+		if (v_pcall_level == 1 && (h.ebx7 & B(16)) && (h.ebx7 & B(30)) && (h.xcr0_lo & 0xe6) == 0xe6)
+			v_pcall_level = 2; /* AVX512F + BW (kmovq) and ZMM/opmask state enabled */
+	}
 	double dl = 0;
 	for (int i = 1; i < argc; i++) {
 		if (!strcmp(argv[i], "--shard") && i + 1 < argc) {
